@@ -25,6 +25,9 @@ def page_free_pairs():
                  replace=["mi_page_queue_remove/c_queue_remove_rec", "_mi_segment_page_free"]),
             dict(name="page_retire", entry="h_page_retire", harness="harness/page_free.c", enforce="_mi_page_retire", label="P", functions=["_mi_page_retire", "mi_page_queue_of"], timeout=300, unwind=20, objbits=10, solver="cadical",   # (pq - heap->pages) divides by 24: minisat does not finish, cadical 5 s
                  replace=["_mi_page_free/c_page_free_rec"])]
+def collect_retired_pair():
+    return dict(name="collect_retired", entry="h_collect_retired", harness="harness/page_free.c", enforce="_mi_heap_collect_retired", label="P", functions=["_mi_heap_collect_retired"], timeout=600, unwind=80, objbits=10,
+                loops="loops/collect_retired.json", need_ids=["loop_invariant_step"], replace=["_mi_page_free/c_page_free_rec"], unwindset={"h_collect_retired.0": 80})
 def page_abandon_pair():
     return dict(name="page_abandon", entry="h_page_abandon", harness="harness/page_free.c", enforce="_mi_page_abandon", label="P", functions=["_mi_page_abandon"], timeout=300, unwind=20, objbits=10,
                 replace=["mi_page_queue_remove/c_queue_remove_rec", "_mi_segment_page_abandon"])
